@@ -29,7 +29,7 @@ import ast
 
 from ..engine import Engine
 from ..report import Report
-from ..facts import path_of, canon, atoms_of_test
+from ..facts import path_of, canon, atoms_of_test, holds
 from ..model import walk_own
 from .. import dataflow
 from .. import regexast as rx
@@ -105,7 +105,71 @@ def run(e: Engine, rep: Report):
              'self.enhanced_status_code (which ties the class digit to the '
              'reply code, W1), never from the stored tuple self._esc')
     w11(e, rep)
+    rep.rule('W12', 'a reply is judged bad on whole lines only: every '
+             '`raise BadReply` of recv_reply lies where a pattern ending in '
+             'LF has matched on this path (or in the arm that caught the '
+             'decoding error of the assembled reply) - a verdict on what has '
+             'arrived of a line so far depends on how the stream was cut')
+    w12(e, rep)
     rep.floor('W2', 4, 'framing agreement obligations')
+
+
+# --------------------------------------------------------------------- W12
+def w12(e: Engine, rep: Report):
+    ctx = e.method_ctx(IOC, 'recv_reply')
+    g = e.build(ctx, raises=lambda b, n, r: set(),
+                inline=e.inline_same_self(deny=['buffered_recv',
+                                                'raw_recv']), max_depth=3)
+    fx = e.facts(g)
+    where = ctx.func.qname
+    rep.functions.add(where)
+    raises = [n for n in g.of_kind('stmt') if isinstance(n.ast, ast.Raise)
+              and n.ast.exc is not None and
+              'BadReply' in ast.unparse(n.ast.exc)]
+    if not raises:
+        rep.error('anchor vanished: raise BadReply in recv_reply')
+        return
+    # locals that hold a match of a whole-line pattern
+    cands = []
+    for s2 in g.of_kind('stmt'):
+        if not (isinstance(s2.ast, ast.Assign) and len(s2.ast.targets) == 1
+                and isinstance(s2.ast.targets[0], ast.Name) and
+                isinstance(s2.ast.value, ast.Call)):
+            continue
+        pats = c09._match_patterns(g, fx, s2.ast.targets[0], s2.frame)
+        if pats and all(c09._regex_ends_in_newline(
+                e, ctx.func.module.name, pn) is True for pn in pats):
+            direct = isinstance(s2.ast.value.func, ast.Attribute) and \
+                s2.ast.value.func.attr in ('match', 'search', 'fullmatch')
+            cands.append((path_of(s2.ast.targets[0], s2.frame), s2, direct))
+    before = dataflow.must_events_before(
+        g, lambda n: ['m%d' % n.id] if any(n is c[1] for c in cands)
+        else [])
+    for r in raises:
+        rep.evaluations += 1
+        in_decode_arm = any(
+            sc.kind == 'handler' and any(
+                t.endswith('UnicodeDecodeError') or t.endswith('UnicodeError')
+                for t in (sc.data.get('node').extra.get('types', [])
+                          if sc.data.get('node') is not None else []))
+            for sc in r.scopes)
+        st = fx.at(r)
+        ok = in_decode_arm
+        for mv, s2, direct in cands:
+            if ok:
+                break
+            if holds(st, (True, mv)) or holds(st, (False, mv + ' is None')):
+                ok = True
+            elif not direct and ('m%d' % s2.id) in (before.get(r.id) or ()):
+                # handed back by a helper only where it matched
+                ok = True
+        rep.check(ok, 'W12', where, '`%s` on a whole line' % r.text(50),
+                  'recv_reply gives up with BadReply on a path where no '
+                  'pattern ending in LF has matched: the verdict is made on '
+                  'the part of a line that has arrived so far, so a reply '
+                  'that is cut at an unlucky place is refused although the '
+                  'same bytes in one piece are accepted', loc=r.loc(),
+                  reason='dominated by a whole-line match / decode arm')
 
 
 # ---------------------------------------------------------------------- W1
